@@ -63,7 +63,7 @@ for d in sorted(os.listdir(ROOT)):
         origin = f"revert of fix commit {commit} in /repo"
     else:
         prop = d.split("-")[0]
-        rnd = "fifth" if "-r5-" in d else "fourth" if "-r4-" in d else ("third" if "-r3-" in d else ("second" if "-r2-" in d else "first"))
+        rnd = "sixth" if "-r6-" in d else "fifth" if "-r5-" in d else "fourth" if "-r4-" in d else ("third" if "-r3-" in d else ("second" if "-r2-" in d else "first"))
         origin = f"written by a fresh sub-agent ({rnd} round) that was given only the text of {prop} and a scratch worktree"
         notes = os.path.join(p, "notes.md")
         needs = open(notes).read().strip() if os.path.exists(notes) else ""
@@ -90,7 +90,7 @@ for d in sorted(os.listdir(ROOT)):
     rows.append((d, prop, sorted(caught), sorted(machinery), sorted(ran), own_final))
 
 with open(os.path.join(ROOT, "MATRIX.md"), "w") as f:
-    f.write("# Seeded changes x quick checks\n\n`X` = the check exited 1 with a VIOLATION line and a replay that reproduced twice, in at least one of the runs recorded under `<change>/evals/`; `.` = run and silent; blank = not run against this change (the third, fourth and fifth rounds were run against their own property, C03 and C04 only). Entries are a lower bound: the all-checks pass was made with the harness as it was when the change arrived, later strengthening only adds detections. Column `own` = reported by the check of the property it was written against, with the FINAL harness.\nGenerated by tools/make_seeded_meta.py.\n\n")
+    f.write("# Seeded changes x quick checks\n\n`X` = the check exited 1 with a VIOLATION line and a replay that reproduced twice, in at least one of the runs recorded under `<change>/evals/`; `.` = run and silent; blank = not run against this change (the third to sixth rounds were run against their own property, C03 and C04 only). Entries are a lower bound: the all-checks pass was made with the harness as it was when the change arrived, later strengthening only adds detections. Column `own` = reported by the check of the property it was written against, with the FINAL harness.\nGenerated by tools/make_seeded_meta.py.\n\n")
     f.write("| change | for | " + " | ".join(p[1:] for p in PROPS) + " | own |\n")
     f.write("|---|---|" + "---|" * len(PROPS) + "---|\n")
     own = 0
